@@ -1112,6 +1112,8 @@ pub fn generate(rng: &mut Prng, family: Family) -> Scenario {
     let indexed: Vec<u8> = if family == Family::LpgCore { vec![0] } else { (0..2u8).filter(|_| rng.chance(1, 2)).collect() };
     let pre_triples: Vec<u8> = (0..8u8).filter(|_| rng.chance(1, 3)).collect();
     let sc_pre_indexes = pre_edges.min(2);
+    let cat_dict_scenario = rng.chance(1, 2);
+    let cat_dict = rng.below(3) as u8;
     // conflicts need shared targets: most ops aim at slot 0 / triple 0
     for _ in 0..n_threads {
         let n = rng.range(1, max_ops) as usize;
@@ -1157,21 +1159,25 @@ pub fn generate(rng: &mut Prng, family: Family) -> Scenario {
                     3 | 4 => SOp::BufRelease,
                     _ => SOp::BufResize(*rng.pick(&[10usize, 50, 90])),
                 },
+                // a scenario is either about the name dictionaries (one of the three, mostly
+                // DIFFERENT new names racing for consecutive ids, sometimes the same name) or
+                // about the index definitions
+                Family::Catalog if cat_dict_scenario => SOp::CatGetOrCreate(if rng.chance(5, 6) { cat_dict } else { rng.below(3) as u8 }, rng.below(3) as u8),
                 Family::Catalog => match rng.below(20) {
-                    0..=3 => SOp::CatGetOrCreate(if rng.chance(2, 3) { 0 } else { rng.below(3) as u8 }, if rng.chance(2, 3) { 0 } else { rng.below(3) as u8 }),
-                    4..=11 => SOp::CatCreateIndex(rng.below(2) as u8, rng.below(2) as u8),
+                    0 | 1 => SOp::CatGetOrCreate(rng.below(3) as u8, rng.below(3) as u8),
+                    2..=10 => SOp::CatCreateIndex(rng.below(2) as u8, rng.below(2) as u8),
                     // mostly the ids that this very scenario hands out first
-                    12..=17 => SOp::CatDropIndex(if rng.chance(3, 4) { (sc_pre_indexes + rng.below(2) as usize) as u8 } else { rng.below(4) as u8 }),
+                    11..=17 => SOp::CatDropIndex(if rng.chance(3, 4) { (sc_pre_indexes + rng.below(2) as usize) as u8 } else { rng.below(4) as u8 }),
                     _ => SOp::CatRead(rng.below(2) as u8),
                 },
                 Family::Cache => {
-                    let k = if rng.chance(1, 2) { 0 } else { rng.below(3) as u8 };
-                    let which = if rng.chance(2, 3) { 0 } else { 1 };
-                    match rng.below(10) {
-                        0..=3 => SOp::CachePut(which, k),
-                        4..=6 => SOp::CacheGet(which, k),
-                        7 => SOp::CacheInvalidate(k),
-                        8 => SOp::CacheClear,
+                    let k = if rng.chance(2, 3) { 0 } else { rng.below(3) as u8 };
+                    let which = rng.below(2) as u8;
+                    match rng.below(20) {
+                        0..=8 => SOp::CachePut(which, k),
+                        9..=12 => SOp::CacheGet(which, k),
+                        13..=15 => SOp::CacheInvalidate(k),
+                        16..=18 => SOp::CacheClear,
                         _ => SOp::CacheStats,
                     }
                 }
